@@ -693,9 +693,9 @@ func (r *vcfsRun) existing() (dirs [][]string, files [][]string) {
 			p := append(append([]string{}, prefix...), r.aname(fi.Name()))
 			if fi.IsDir() {
 				dirs = append(dirs, p)
-				if len(p) < 5 {
-					// (generator feedback only: deeper directories are not offered as targets,
-					// which keeps trees shallow; the snapshot walker has no such limit)
+				if len(p) < 6 {
+					// (generator feedback only: deeper directories are not offered as targets;
+					// the snapshot walker has no such limit)
 					walk(p)
 				}
 			} else {
